@@ -686,6 +686,39 @@ def witnessCompletion (g : Cfg) (t : TxIn) (vs : List Var) (ids : List Nat) (p :
     | none => some e
     | some b => if e.length < b.length then some e else some b) none
 
+/-! ### header entries on a circRNA backbone (C03) -/
+
+/-- the reading of a circle that decides which records are usable (the `tU` of `callCirc`) -/
+def circHost (circSeq : List Char) : TxIn :=
+  { seq := circSeq, coding := false, orfStart := 0, orfEnd := 0, startNF := false,
+    endNF := false, sec := [] }
+
+/-- the peptide forms of the ONE molecule that carries the combination `h`, read around the
+circle (the inner expression of `callCirc`, see `Props.C03.callCirc_unfold`) -/
+def circPeptides (g : Cfg) (circSeq : List Char) (h : List Var) : List Pep :=
+  let m := applyHap circSeq h
+  peptidesOf { g with sect := false } { circHost circSeq with endNF := true } (m ++ m ++ m ++ m) [] true
+
+/-- S (C03, circRNA backbone): applying exactly the records named by `ids` (all of them usable
+inside the circle and mutually compatible) to the one molecule — the same records in EVERY pass
+around the circle — gives a translation of which `p` is a digestion product -/
+def witnessCirc (g : Cfg) (circSeq : List Char) (vs : List Var) (ids : List Nat) (p : Pep) : Bool :=
+  let us := sortByStart (vs.filterMap (usable (circHost circSeq)))
+  let h := us.filter fun v => v.ids.all ids.contains
+  ids.all (fun i => h.any (·.ids.contains i)) && separatedOrPaired h &&
+    (circPeptides g circSeq h).contains p
+
+/-- classification only: the smallest set of additional record ids that turns `ids` into a
+witness for `p` on the circle (`none`: no combination containing `ids` yields `p`) -/
+def witnessCircCompletion (g : Cfg) (circSeq : List Char) (vs : List Var) (ids : List Nat) (p : Pep) :
+    Option (List Nat) :=
+  let cands := ([] :: haplotypes (circHost circSeq) vs).filter fun h =>
+    ids.all (h.flatMap (·.ids)).contains && (circPeptides g circSeq h).contains p
+  let extras := cands.map fun h => (h.flatMap (·.ids)).filter fun i => !ids.contains i
+  extras.foldl (fun best e => match best with
+    | none => some e
+    | some b => if e.length < b.length then some e else some b) none
+
 /-! ### where an omitted record lies relative to the peptide (classification of label defects) -/
 
 /-- the stretch `[a, b)` that record `v ∈ h` occupies in the sequence carrying `h` -/
